@@ -896,7 +896,8 @@ func c14Registration(c *Ctx) {
 				return true
 			}
 		}
-		return false
+		// a private helper that only Register calls (the slot search extracted into a method)
+		return fn.Parent() == nil && fn != reg && p.ownedByAny(fn, []string{shortName(reg)})
 	}
 	// a release written as a method of a small registration type counts as Register's own if values of that type are
 	// created only in Register (the method value is what Register returns)
@@ -930,7 +931,7 @@ func c14Registration(c *Ctx) {
 			continue // instantiation of the generic body: the body itself is analysed
 		}
 		switch {
-		case w.fn == reg && (w.field == "" || w.field == "map"):
+		case (w.fn == reg || (w.fn.Parent() == nil && inRegister(w.fn))) && (w.field == "" || w.field == "map"):
 			nOcc++
 			// the stored value is the complete handler built from callback and options
 			ok := false
@@ -946,7 +947,7 @@ func c14Registration(c *Ctx) {
 			}
 			c.Check(ok, "C14.8/occupy", "Register: a slot is occupied by the complete handler", p.InstrPos(w.in),
 				"the handler value (callback and options) is stored as a whole / appended", "the table entry is not written with a complete handler value")
-		case w.fn == reg:
+		case w.fn == reg || (w.fn.Parent() == nil && inRegister(w.fn)):
 			nOcc++
 			c.Violated("C14.8/occupy", "Register: a slot is occupied by the complete handler", p.InstrPos(w.in),
 				"only field "+w.field+" of a re-used slot is written: the new handler runs with the options (priority, in-AddEvent mode) of the slot's previous occupant")
